@@ -73,6 +73,16 @@ func explore(args []string) {
 	cfg := &gosym.HarnessCfg{Pkg: P.Module + "/" + *pkg, Func: *fn, Workers: *workers, MaxPaths: *maxPaths}
 	cfg.Opts.MaxSteps = *steps
 	cfg.Fixed = parseKV(*fixed)
+	for _, sp := range props {
+		for _, h := range sp.Harnesses {
+			if h.Func == *fn && h.Overrides != nil {
+				cfg.Overrides = h.Overrides
+				if cfg.Opts.MaxSteps == 0 {
+					cfg.Opts = h.Opts
+				}
+			}
+		}
+	}
 	cfg.Params = parseKV(*params)
 	res := gosym.Explore(P, cfg)
 	if *full {
